@@ -183,6 +183,15 @@ def twolocks(cls):
     return ['P %s_2locks %s | X:x1:1 S:s2:2 U:s2 U:x1 | S:s3:1 U:s3 X:x4:2 U:x4 || X:x11:1 U:x11 X:x12:2 U:x12' % (cls, cls)]
 
 
+QUIET = ('Sq', 'SIXq', 'Xq', 'UPGq', 'UPGqq', 'DNGq', 'DNGqq', 'XqX')
+
+
+def quiesce(cls, tag='q3'):
+    """a holder that waits until the two other threads have finished or queued up behind it, then releases / converts:
+    queues of waiters (and groups of shared holders) are in place without a single preemption"""
+    return cross(cls, [QUIET, MODES + ('UPG', 'DNG'), MODES], tag)
+
+
 def twolock_follow(cls, tag='tl'):
     """one thread uses lock 1 (while another thread queues up behind it or shares it) and then lock 2: whatever a lock keeps
     per thread (MCS: the cached queue node with its link and flag bits) is carried from one lock to the next"""
@@ -267,6 +276,26 @@ def script(name, g, lock=1):
     if name == 'XS':
         x, s = a(), a()
         return 'X:x%d:%d U:x%d S:s%d:%d U:s%d' % (x, lock, x, s, lock, s)
+    # holder scripts that wait (Q) until every other thread has finished or queued up before they go on
+    if name in ('Sq', 'SIXq', 'Xq'):
+        m = name[:-1]
+        k = a()
+        return '%s:%s%d:%d Q U:%s%d' % (m, PRE[m], k, lock, PRE[m], k)
+    if name == 'UPGq':
+        i, x = a(), a()
+        return 'SIX:i%d:%d Q UP:i%d:x%d U:x%d U:i%d' % (i, lock, i, x, x, i)
+    if name == 'UPGqq':
+        i, x = a(), a()
+        return 'SIX:i%d:%d Q UP:i%d:x%d Q U:x%d U:i%d' % (i, lock, i, x, x, i)
+    if name == 'DNGq':
+        x, i = a(), a()
+        return 'X:x%d:%d Q DN:x%d:i%d U:i%d U:x%d' % (x, lock, x, i, i, x)
+    if name == 'DNGqq':
+        x, i = a(), a()
+        return 'X:x%d:%d Q DN:x%d:i%d Q U:i%d U:x%d' % (x, lock, x, i, i, x)
+    if name == 'XqX':
+        x, y = a(), a()
+        return 'X:x%d:%d Q U:x%d X:x%d:%d U:x%d' % (x, lock, x, y, lock, y)
     if name == 'XX':
         x, y = a(), a()
         return 'X:x%d:%d U:x%d X:x%d:%d U:x%d' % (x, lock, x, y, lock, y)
